@@ -24,7 +24,7 @@ def check(tier, seed):
                       "A-SY1/A-SY2: sympy xreplace / simplify / collect_const / doit are value-preserving on coefficient expressions"]
     d.not_decided += ["NumberOrderedForm from_expr / as_expr, _combine_operators / _expand_operators, __pow__, _poly_simplify: bounded battery (C08) only",
                       "solve_scalar with diagonal=True returns R - R^dagger: that this solves the positive-shift terms is the identity [H, -R^dagger] = [H, R]^dagger for Hermitian Y (paper argument) on top of the adjoint contract",
-                      "the wiring of block_diagonalize for operator input (H_eval, post-simplification): bounded battery only"]
+                      "detection of the operators and of `scalar_input` in block_diagonalize (find_operators, type tests): bounded battery only; the wrappers H_eval / postprocessing_eval are under contract"]
     d.explanation = ("U^dagger U = 1 and U^dagger H U = H_tilde *within the operator algebra* are the C01/C02 theorems instantiated at the algebra of number-ordered forms, "
                      "whose multiplication is proved faithful on Fock states (C08 units re-run here).  Agreement with block-diagonalized truncated matrices is an instance of "
                      "naturality (the Fock representation preserves the kept / eliminated split: number-conserving terms are diagonal in the Fock basis) together with the "
